@@ -1,9 +1,6 @@
 use crate::{
-    layouts::{VecZnx, VecZnxToMut, VecZnxToRef, ZnxInfos},
-    reference::{
-        vec_znx::{vec_znx_rotate_assign, vec_znx_switch_ring},
-        znx::{ZnxCopy, ZnxRotate, ZnxSwitchRing, ZnxZero},
-    },
+    layouts::{VecZnx, VecZnxToMut, VecZnxToRef, ZnxInfos, ZnxView, ZnxViewMut},
+    reference::znx::{ZnxCopy, ZnxRotate, ZnxSwitchRing, ZnxZero},
 };
 
 pub fn vec_znx_merge_rings_tmp_bytes(n: usize) -> usize {
@@ -37,10 +34,19 @@ where
         assert_eq!(a.len(), _n_out / _n_in);
     }
 
-    a.iter().for_each(|ai| {
-        vec_znx_switch_ring::<_, _, ZNXARI>(&mut res, res_col, ai, a_col);
-        vec_znx_rotate_assign::<_, ZNXARI>(-1, &mut res, res_col, tmp);
-    });
-
-    vec_znx_rotate_assign::<_, ZNXARI>(a.len() as i64, &mut res, res_col, tmp);
+    // res = sum_i X^i * a_i(X^gap): part `i` occupies the coefficients congruent to `i` modulo `gap`.
+    // Every coefficient of every limb of the selected column is written (missing limbs read as zero).
+    let _ = tmp;
+    let gap: usize = a.len();
+    for j in 0..res.size() {
+        let res_j: &mut [i64] = res.at_mut(res_col, j);
+        for (i, ai) in a.iter().enumerate() {
+            let ai: VecZnx<&[u8]> = ai.to_ref();
+            if j < ai.size() {
+                res_j.iter_mut().skip(i).step_by(gap).zip(ai.at(a_col, j).iter()).for_each(|(x, y)| *x = *y);
+            } else {
+                res_j.iter_mut().skip(i).step_by(gap).for_each(|x| *x = 0);
+            }
+        }
+    }
 }
